@@ -13,7 +13,7 @@ from checks_reader import parse_kv, finish_proof, cases_count, report_corr
 TAG_SOURCE, TAG_WP, TAG_CS = G.TAG_SOURCE, G.TAG_WP, G.TAG_CS
 
 
-def gen_session_script(rng, rotations=True):
+def gen_session_script(rng, rotations=True, allocfail=False):
     cs = (rng.randrange(1000), rng.choice([1, 1000, 10 ** 9]), rng.randrange(10 ** 18), rng.choice([0, 3600]), b'UT'.hex())
     ops = []
     writers = {}          # w -> next seq
@@ -37,7 +37,11 @@ def gen_session_script(rng, rotations=True):
             extra = rng.choice([0, 0, 1, 5, 20, 60, 200])
             args = struct.pack('<II', w, writers[w]) + bytes(rng.randrange(256) for _ in range(extra))
             writers[w] += 1
-            ops.append('log %d %d %d %s' % (w, rng.randrange(1, nsrc + 1), rng.randrange(1000), args.hex()))
+            # 6%: `logf` - the same addEvent while array allocation fails (a channel replacement, if needed, fails: ok=0)
+            opname = 'logf' if allocfail and rng.random() < 0.06 else 'log'
+            if opname == 'logf' and rng.random() < 0.7:
+                args += bytes(rng.randrange(256) for _ in range(rng.choice([64, 128, 300, 1100])))
+            ops.append('%s %d %d %d %s' % (opname, w, rng.randrange(1, nsrc + 1), rng.randrange(1000), args.hex()))
         elif k < 80:
             ops.append('consume')
         elif k < 84:
@@ -106,7 +110,7 @@ def analyse(line, out):
         elif t[0] == 'sname' and seg == 'sname':
             cur[int(t[1])] = (cur.get(int(t[1]), (0, b''))[0], bytes.fromhex(t[2]) if t[2] != '-' else b'')
             ident.setdefault(int(t[1]), set()).add(cur[int(t[1])])
-        if t[0] == 'log':
+        if t[0] in ('log', 'logf'):
             if parse_kv(seg).get('ok') == '1':
                 args = bytes.fromhex(t[4])
                 w, seq = struct.unpack('<II', args[:8])
@@ -179,6 +183,8 @@ def analyse(line, out):
                 key = 'C03' if oi == 0 else 'C13'
                 if tg not in defined:
                     fails[key] = 'output %d: event with source id %d before its source entry' % (oi, tg)
+                    # C03 speaks about every output ("each source is written once per output"): also its violation
+                    fails['C03'] = fails[key]
                 if not seen_cs:
                     fails[key] = 'output %d: event before any clock sync' % oi
         if any(c > 1 for c in src_count.values()):
@@ -416,7 +422,7 @@ def session_check(ctx, module, theorems, prop, rotations=True, extra=None):
     exe = build_harness('session_harness', link_repo=False)
     rng = random.Random(ctx.seed * 1000003 + 2)
     n = cases_count(ctx, 1500, 30000)
-    lines = [gen_session_script(rng, rotations) for _ in range(n)]
+    lines = [gen_session_script(rng, rotations, allocfail=True) for _ in range(n)]
     impl, model, mism = diff_streams(ctx, 'session_ops', exe, lines)
     prop_fail, nontrivial = set(), set()
     for i, l in enumerate(lines):
@@ -431,6 +437,8 @@ def session_check(ctx, module, theorems, prop, rotations=True, extra=None):
         if 'rotate' in l or 'polled=2' in impl[i] or 'polled=3' in impl[i]:
             nontrivial.add(l)
     report_corr(ctx, 'session_ops', lines, impl, model, mism, prop_fail)
+    ctx.streams['session_ops'].update({'logf_ops': sum(l.count('| logf ') for l in lines),
+                                       'failed_channel_replacements': sum(o.count(' af=1') for o in impl)})
     if inject_stream(ctx, prop):
         prop_fail.add('inject')
     if getattr(ctx, 'extra_finder', None) and ctx.extra_finder(ctx):
@@ -582,8 +590,10 @@ def check_c02(ctx):
     exe = build_harness('session_harness', link_repo=False)
     rng = random.Random(ctx.seed * 1000003 + 2)
     n = cases_count(ctx, 1000, 20000)
-    lines = [gen_session_script(rng, False) for _ in range(n)]
+    lines = [gen_session_script(rng, False, allocfail=True) for _ in range(n)]
     impl, model, mism = diff_streams(ctx, 'session_ops', exe, lines)
+    ctx.streams['session_ops'].update({'logf_ops': sum(l.count('| logf ') for l in lines),
+                                       'failed_channel_replacements': sum(o.count(' af=1') for o in impl)})
     prop_fail, nontrivial = set(), set()
     for i, l in enumerate(lines):
         if i >= len(impl):
